@@ -32,7 +32,7 @@ Notation wf := (Etoks.wf tbl).
 (* lexical sanity of the leaves *)
 Definition name_ok (n : str) : Prop :=
   match n with
-  | c :: bt => wordstart c /\ is_param_char c = true /\ forallb is_param_char bt = true /\ is_op tbl n = false /\ is_kw n = false
+  | c :: bt => wordstart c /\ forallb is_param_char bt = true /\ is_op tbl n = false /\ is_kw n = false
   | [] => False
   end.
 Definition lit_ok (l : literal) : Prop :=
@@ -166,13 +166,13 @@ Qed.
 
 Lemma TX_name n : name_ok n -> TX kend n [TRef n].
 Proof.
-  destruct n as [|c bt]; [contradiction|]. intros (Hw & Hc & Hb & Ho & Hk).
-  apply (TX_ref tbl word_ops_param c bt Hw Hc Hb Ho Hk).
+  destruct n as [|c bt]; [contradiction|]. intros (Hw & Hb & Ho & Hk).
+  apply (TX_ref tbl word_ops_param c bt Hw Hb Ho Hk).
 Qed.
 Lemma TX_fname n : name_ok n -> TX rany (n ++ [c_lparen]) [TFunc n; TDelim DLParen].
 Proof.
-  destruct n as [|c bt]; [contradiction|]. intros (Hw & Hc & Hb & Ho & Hk).
-  apply (TX_funcname tbl word_ops_param c bt Hw Hc Hb Ho Hk).
+  destruct n as [|c bt]; [contradiction|]. intros (Hw & Hb & Ho & Hk).
+  apply (TX_funcname tbl word_ops_param c bt Hw Hb Ho Hk).
 Qed.
 
 (* ---------- comma-separated elements *)
@@ -450,7 +450,7 @@ Variable tbl : optable.
 Definition name_okb (n : str) : bool :=
   match n with
   | c :: bt => negb (is_ws c) && negb (is_special c) && negb (is_delim c) && negb (is_digit09 c) && negb (is_quote c) &&
-               negb (c =? c_semi) && negb (c =? c_comma) && is_param_char c && forallb is_param_char bt &&
+               negb (c =? c_semi) && negb (c =? c_comma) && forallb is_param_char bt &&
                negb (is_op tbl n) && negb (is_kw n)
   | [] => false
   end.
